@@ -1,17 +1,44 @@
 (* CodecDesc.v — the vocabulary in which tools/srccodec.py describes the wire codecs of /repo/src/encoding.rs
    (SrcCodec.v, regenerated on every run). Declarations only; CodecTie.v gives them their meaning. *)
-From Coq Require Export String List.
+From Coq Require Export String List NArith.
 Export ListNotations.
 
 (* how a field is written: u64 -> compact uint; Vec<u8> -> length-prefixed buffer; Vec<Node> -> length-prefixed node
    list; the node hash -> exactly 32 raw bytes (as_array::<32> / [u8; 32]). [FOther]: the source has a field of the
    recognised syntactic form whose Rust type the model has no codec for (the Rust type is kept for the error message);
-   nothing can be tied to such a description. *)
-Inductive fty := FU64 | FBytes | FNodes | FHash32 | FOther (rust : string).
+   nothing can be tied to such a description. Oplog codecs (OplogTie.v) only: [FStrings] = Vec<String> (length-prefixed list
+   of strings); [FRec name] = a nested struct with a CompactEncoding impl of its own that the model has a codec for. *)
+Inductive fty := FU64 | FBytes | FNodes | FHash32 | FOther (rust : string) | FStrings | FRec (name : string).
 
 Record codec_desc := {
   cd_size : list (string * fty);      (* fields summed by encoded_size, in source order *)
   cd_enc : list (string * fty);       (* fields written by encode, in source order *)
   cd_dec_types : list fty;            (* types read by decode, in source order *)
   cd_ctor : list string               (* for each value read, the field of the result it initialises *)
+}.
+
+(* ---------- the imperative but regular oplog codecs (src/oplog/entry.rs, src/oplog/header.rs) ---------- *)
+
+(* impl CompactEncoding for Entry: one flag byte, then the sections that are present. For each of the three functions
+   separately, the sections in source order; encode: `flags |= bit` next to the section it writes; decode:
+   `flags & bit != 0` next to the section it reads and the field the result is stored in. *)
+Record flagged_desc := {
+  fd_size_lead : N;                          (* `let mut out = 1`: the flag byte *)
+  fd_size : list (string * fty);             (* sections added by encoded_size *)
+  fd_enc : list (string * N * fty);          (* encode: (field, bit or-ed into the flags, type written) *)
+  fd_dec : list (string * N * fty)           (* decode: (field, bit tested, type read) *)
+}.
+
+(* a leading byte made of boolean fields (BitfieldUpdate: `drop`) *)
+Record flagbyte_desc := {
+  fb_size : N;                               (* the constant encoded_size adds for it *)
+  fb_enc : list (string * N);                (* encode: the byte is this value when the field is true, 0 otherwise *)
+  fb_dec : list (string * N)                 (* decode: field := (flags & mask) is set *)
+}.
+
+(* constant leading bytes (Header: version and flags) *)
+Record lead_desc := {
+  hl_bytes : list N;                         (* encode: write_array(&[..]) *)
+  hl_dec_skip : N;                           (* decode: take_array::<n>, values ignored *)
+  hl_size : N                                (* the constants encoded_size adds for them *)
 }.
